@@ -7,7 +7,7 @@ use std::cmp::Ordering;
 
 pub fn meta() -> Meta {
     Meta {
-        rule: "events = every comparison operator (== != < <= > >= cmp partial_cmp min max) on one ordered pair of durations, comparisons with a Unit, a+b > a for the pair, and slice::sort of vectors of 2..200 durations; expected from the i128 counts (total order; == true for equal counts, false when magnitudes differ or for exact negations beyond one century; == between a duration and its exact negation within one century is don't-care). Generation: all lattice pairs, pairs with century fields differing by exactly one ((c,n) vs (c+-1,NPC-n), (c+-1,n)), pairs straddling zero, pairs summing to one century, random pairs/triples. Non-trivial = counts equal, magnitudes equal, century fields differ by exactly one, operands straddle zero, or either operand at a bound; distinct = distinct pair hashes among those.",
+        rule: "events = every comparison operator (== != < <= > >= cmp partial_cmp min max) on one ordered pair of durations, comparisons with a Unit, a+b > a for the pair, and slice::sort of vectors of 2..200 durations; expected from the i128 counts (total order; == true for equal counts, false when magnitudes differ or for exact negations beyond one century; == between a duration and its exact negation within one century is don't-care). Generation: all lattice pairs, pairs with century fields differing by exactly one ((c,n) vs (c+-1,NPC-n), (c+-1,n)), pairs straddling zero, pairs summing to one century, random pairs/triples. Non-trivial = counts equal, magnitudes equal, century fields differ by exactly one, operands straddle zero, or either operand at a bound; distinct = distinct pair hashes among those. Round 6: provenance routes include every operation that can end on the count ((-c).abs(), MAX - (MAX - c), MIN + (c - MIN), +0, *-1, Unit forms, min/max, floor/round/ceil by 1 ns, *1.0, compose(decomposed), (e + c) - e, from_str(Display)); sorts are repeated through sort_by(partial_cmp), BTreeSet, binary_search, Iterator::max/min/max_by/min_by_key and Ord::clamp.",
         assumptions: &["operands read through to_parts()"],
         mandatory: &["pair/centuries-differ-by-one", "pair/straddle-zero", "pair/equal-count", "pair/exact-negation", "pair/mirror-across-century", "sort/vector", "unit/compare", "unit/exact-negation"],
         thorough_scale: 60,
